@@ -321,7 +321,34 @@ typedef struct { int m, n; unsigned long long first, count; } shape_t;
 static shape_t SH[16]; static int nshape; static unsigned long long total_idx;
 static const char *GRID = "quick";
 static int diag_only;
+static void build_shapes_bits(const char *family, int N);
+/* family comp (added after seeded change C10-6 was missed: a stale degree-1 bucket in genmmd_ needs an isolated vertex + a component that ends with external degree 0 + a
+   third component, n >= 7): every SEQUENCE of components from {K1, P2, P3, K3, P4, star4, C4} with N vertices in total (>= 2 components), vertices numbered consecutively,
+   x 4 relabelings (identity, reversal, i -> 3i mod N, i -> 5i mod N) x {symmetric pattern, upper triangle only}; full diagonal */
+static unsigned long long *COMP; static long ncomp, capcomp; static int comp_mode;
+static const int CSZ[7] = { 1, 2, 3, 3, 4, 4, 4 };
+static const int CEDGE[7][4][2] = { { {-1,-1} }, { {0,1}, {-1,-1} }, { {0,1}, {1,2}, {-1,-1} }, { {0,1}, {1,2}, {0,2} }, { {0,1}, {1,2}, {2,3}, {-1,-1} }, { {0,1}, {0,2}, {0,3}, {-1,-1} }, { {0,1}, {1,2}, {2,3}, {0,3} } };
+static void comp_emit(const int *seq, int len, int N) {
+    if (len < 2) return;
+    int adj[8][8]; memset(adj, 0, sizeof adj); int base = 0;
+    for (int c = 0; c < len; c++) { int t = seq[c]; for (int e = 0; e < 4 && CEDGE[t][e][0] >= 0; e++) { int a = base + CEDGE[t][e][0], b = base + CEDGE[t][e][1]; adj[a][b] = adj[b][a] = 1; } base += CSZ[t]; }
+    for (int map = 0; map < 4; map++) for (int half = 0; half < 2; half++) {
+        int lab[8]; for (int i = 0; i < N; i++) lab[i] = map == 0 ? i : map == 1 ? N - 1 - i : map == 2 ? (3 * i) % N : (5 * i) % N;
+        unsigned long long bits = 0;
+        for (int i = 0; i < N; i++) { bits |= 1ULL << (lab[i] * N + lab[i]); for (int j = 0; j < N; j++) if (adj[i][j]) { int a = lab[i], b = lab[j]; if (!half || a < b) bits |= 1ULL << (a * N + b); } }
+        if (ncomp == capcomp) { capcomp = capcomp ? capcomp * 2 : 4096; COMP = realloc(COMP, sizeof *COMP * capcomp); }
+        COMP[ncomp++] = bits;
+    }
+}
+static void comp_rec(int *seq, int len, int left, int N) {
+    if (left == 0) { comp_emit(seq, len, N); return; }
+    for (int t = 0; t < 7; t++) if (CSZ[t] <= left) { seq[len] = t; comp_rec(seq, len + 1, left - CSZ[t], N); }
+}
 static void build_shapes(const char *family, int N) {
+    if (!strcmp(family, "comp")) { int seq[16]; comp_mode = 1; ncomp = 0; comp_rec(seq, 0, N, N); nshape = 1; SH[0].m = SH[0].n = N; SH[0].first = 0; SH[0].count = (unsigned long long)ncomp; total_idx = (unsigned long long)ncomp; return; }
+    build_shapes_bits(family, N);
+}
+static void build_shapes_bits(const char *family, int N) {
     nshape = 0; total_idx = 0;
     if (!strcmp(family, "sq") || !strcmp(family, "sqdiag")) { SH[nshape].m = SH[nshape].n = N; nshape++; }
     else for (int m = 1; m <= N; m++) for (int n = 1; n <= N; n++) if (m != n && (m == N || n == N)) { SH[nshape].m = m; SH[nshape].n = n; nshape++; }
@@ -334,12 +361,13 @@ static unsigned long long diag_bits(int n, unsigned long long off) {
     return bits;
 }
 static void idx_to_matrix(unsigned long long idx, int *m, int *n, unsigned long long *bits) {
+    if (comp_mode) { *m = *n = SH[0].n; *bits = idx < (unsigned long long)ncomp ? COMP[idx] : 0; return; }
     for (int s = 0; s < nshape; s++) if (idx < SH[s].first + SH[s].count) { *m = SH[s].m; *n = SH[s].n; *bits = diag_only ? diag_bits(SH[s].n, idx - SH[s].first) : idx - SH[s].first; return; }
     *m = *n = 1; *bits = 0;
 }
 /* quick grid: the caller-permutation axis runs on every pattern up to 3x3 (and every rectangular one) but only on every 17th 4x4 (5x5) pattern */
 static int permaxis_for(int m, int n, unsigned long long bits) {
-    if (!permaxis) return 0;
+    if (!permaxis || comp_mode) return 0;      /* n! caller orderings at n = 7, 8 are out of reach; the four orderings of get_perm_c are what this family is about */
     if (!strcmp(GRID, "full")) return 1;
     if (m == n && n >= 4) return (bits % 17) == 5;      /* 17 is coprime to the slice count: spread over all slices */
     return 1;
@@ -361,15 +389,15 @@ static void death_fn(unsigned long long idx, int kind, int code, const char *not
 
 /* ------------------------------------------------------------------ replay of one case string */
 static int replay_one(const char *s) {
-    int m = 0, n = 0, ord = -1, sym = 0; char pat[64] = "", perm[16] = "", stage[16] = ""; const char *q;
+    int m = 0, n = 0, ord = -1, sym = 0; char pat[80] = "", perm[16] = "", stage[16] = ""; const char *q;
     if ((q = strstr(s, "m="))) m = atoi(q + 2);
     if ((q = strstr(s, " n="))) n = atoi(q + 3);
-    if ((q = strstr(s, "pat="))) sscanf(q + 4, "%63[01]", pat);
+    if ((q = strstr(s, "pat="))) sscanf(q + 4, "%79[01]", pat);
     if ((q = strstr(s, "stage="))) sscanf(q + 6, "%15[a-z]", stage);
     if ((q = strstr(s, " ord="))) ord = atoi(q + 5);
     if ((q = strstr(s, "perm="))) sscanf(q + 5, "%15[0-9]", perm);
     if ((q = strstr(s, "sym="))) sym = atoi(q + 4);
-    if (m < 1 || n < 1 || m > MAXN + 2 || n > MAXN + 2 || (int)strlen(pat) != m * n || (ord < 0 && (int)strlen(perm) != n) || ord > 3) { fprintf(stderr, "bad case string\n"); return 2; }
+    if (m < 1 || n < 1 || m > 8 || n > 8 || (int)strlen(pat) != m * n || (ord < 0 && (int)strlen(perm) != n) || ord > 3) { fprintf(stderr, "bad case string\n"); return 2; }
     unsigned long long bits = 0; for (int k = 0; k < m * n; k++) if (pat[k] == '1') bits |= 1ULL << k;
     mat_open(m, n, bits);
     int_t pin[NMAX]; const int_t *pp = NULL; char label[32];
@@ -398,7 +426,7 @@ int main(int argc, char **argv) {
     int timeout = arg_int(argc, argv, "--timeout", 20);
     double deadline = atof(arg_str(argc, argv, "--deadline", "1e9")); double t0 = now_s();
     diag_only = !strcmp(family, "sqdiag");
-    if (N < 1 || N > MAXN + diag_only || nslice < 1 || islice < 0 || islice >= nslice || (strcmp(family, "sq") && strcmp(family, "rect") && strcmp(family, "sqdiag")) || (strcmp(GRID, "quick") && strcmp(GRID, "full"))) {
+    if (N < 1 || N > (strcmp(family, "comp") ? MAXN + diag_only : 8) || nslice < 1 || islice < 0 || islice >= nslice || (strcmp(family, "sq") && strcmp(family, "rect") && strcmp(family, "sqdiag") && strcmp(family, "comp")) || (strcmp(GRID, "quick") && strcmp(GRID, "full"))) {
         fprintf(stderr, "usage: mcorder --family sq|rect|sqdiag --n 1..%d --grid quick|full [--slice i/k] [--deadline s] | --one \"<case>\"\n", MAXN); return 2; }
     build_shapes(family, N);
     /* slice i of k takes the indices i, i+k, i+2k, ... (dense and sparse patterns are spread evenly) */
